@@ -17,6 +17,9 @@ inductive ResolvesM (r : Reg) : MId → Path → MId → Prop
   | here {m n c} : kvFind (r.get m).subKv n = some c → ResolvesM r m [n] c
   | sub {m n c' path c} : kvFind (r.get m).subKv n = some c' → ResolvesM r c' path c → ResolvesM r m (n :: path) c
 
+/-- the name is taken in model `m`, by a parameter or by a submodel -/
+def NameUsed (r : Reg) (m : MId) (n : Name) : Prop := (∃ q, ResolvesP r m [n] q) ∨ (∃ c, ResolvesM r m [n] c)
+
 namespace Reg
 
 /-- `c` is a direct submodel of `m`. -/
